@@ -135,10 +135,14 @@ type TyOpts struct {
 	Depth      int
 	Interfaces bool // interface literals with methods
 	Funcs      bool
+	Others     bool // leaves of a kind the namers have no rule for ("unnameable_<Kind>")
 }
 
 func (g *Gen) tyGen(o TyOpts, depth int) *TNode {
 	if depth >= o.Depth || g.Chance(0.3) {
+		if o.Others && g.Chance(0.12) {
+			return &TNode{Kind: "other", Nm: g.Pick([]string{"Unsupported", "DeclarationOf", "Unknown", "TypeParam"})}
+		}
 		if g.Chance(0.45) {
 			return &TNode{Kind: "builtin", Nm: g.Pick(tyBuiltins)}
 		}
